@@ -393,7 +393,7 @@ def check_C11(tier, seed):
     more += [g for g in sr if g not in more and ('{ !"##"' in g["text"].splitlines()[0] or '{ &"#"' in g["text"].splitlines()[0])][: (6 if tier == "quick" else 40)]
     # stack slices with reversed / out-of-range bounds at some depths, zero-width stack iterations: every parse still returns
     sl = families.fam_slices(tier)
-    more += families.fam_trig(tier) + [dict(g, inputs=g["inputs"][::5]) for g in sl[1:8:3]] if tier == "quick" else families.fam_trig(tier) + sl
+    more += families.fam_trig(tier) + ([dict(g, inputs=g["inputs"][::5]) for g in sl[1:8:3]] if tier == "quick" else [dict(g, inputs=g["inputs"][::8]) for g in sl[::2]])
     mread = peg.pest_read(more, "c11")
     for g, r in zip(more, mread):
         g["rules"] = r["rules_src"]
@@ -441,7 +441,9 @@ def check_C11(tier, seed):
     wf = [g for g in grams if verdict[g["id"]]["wellfounded"]]
     rnd = random.Random(seed)
     rnd.shuffle(wf)
-    wf = [g for g in wf if g["id"].startswith(("sr", "sl", "tg"))] + [g for g in wf if not g["id"].startswith(("sr", "sl", "tg"))][: (40 if tier == "quick" else 300)]
+    # (the slice / trigger grammars come last: they are run on the real code, the liveness run keeps to the first grammars)
+    wf = ([g for g in wf if g["id"].startswith("sr")] + [g for g in wf if not g["id"].startswith(("sr", "sl", "tg"))][: (40 if tier == "quick" else 300)]
+          + [g for g in wf if g["id"].startswith(("sl", "tg"))])
     for g in wf:
         g.setdefault("alphabet", cps("ab1 #"))
         g["maxlen"] = 3 if tier == "quick" else 4
@@ -476,6 +478,10 @@ def check_C11(tier, seed):
             for k, opts in enumerate([{"box_only_if_needed": True}, {"box_only_if_needed": True, "pest_optimizer": False},
                                       {"box_only_if_needed": True, "emit_rule_reference": True, "emit_tagged_node_reference": True, "do_not_emit_span": True}]):
                 recg.append(dict(g, id="%sb%d" % (g["id"], k), opts=opts, maxlen=2))
+    # ... and the unusual-but-valid constructs of family odd (escapes, arities of 20, rules named like built-ins) with default options
+    import families as _F
+    for g in _F.fam_odd(tier):
+        recg.append(dict(g, id=g["id"] + "c", opts={}, maxlen=2))
     for ast, sel in (("opt", lambda o: o.get("pest_optimizer", True)), ("src", lambda o: not o.get("pest_optimizer", True))):
         part = [g for g in recg if sel(g["opts"])]
         props.run_generic(ctx, "c11o" + ast, part, "s", cmp_term, with_pest=False, ast=ast)
@@ -934,9 +940,11 @@ def check_C18(tier, seed):
                       # same rule, same span, different content: what lies behind the end of the sub-range decides an optional part
                       "e = { 'a'..'c' ~ EOI? }",
                       # ... or how many iterations a peeked / a silent rule's repetition has
-                      "k = { &(\"a\"*) ~ 'a'..'c' }", "m = _{ 'a'..'c'* }"])
+                      "k = { &(\"a\"*) ~ 'a'..'c' }", "m = _{ 'a'..'c'* }",
+                      # nodes without a span of their own compare and hash by what they matched, wherever it was matched
+                      "ci = _{ ^\"a\" ~ ^\"B\"? ~ \"!\"? }"])
     full = "a! b!ab a!aBaa b! a!"
-    rules = ["w", "s", "o", "l", "c", "p", "n", "e", "k", "m"]
+    rules = ["w", "s", "o", "l", "c", "p", "n", "e", "k", "m", "ci"]
     g = dict(id="hi0", text=text, alphabet=[], maxlen=0, inputs=[cps(full)], entries=rules)
     path, corpus = peg.make_corpus([g], "c18")
     # pool of (rule, sub-range): same text at different places, same start with different ends, overlapping ranges
@@ -962,12 +970,13 @@ def check_C18(tier, seed):
     tot_hist = 0
     for rd in range(rounds):
         # two rules per pool, several sub-ranges each, so that results of the same type meet in most histories
-        pairs = [("o", "e"), ("k", "m"), ("w", "s"), ("o", "l"), ("c", "p"), ("n", "s"), ("s", "o"), ("l", "w"), ("p", "n"), ("c", "o"), ("e", "w")]
+        pairs = [("o", "e"), ("k", "m"), ("ci", "s"), ("w", "s"), ("o", "l"), ("c", "p"), ("n", "s"), ("s", "o"), ("l", "w"), ("p", "n"), ("c", "o"), ("e", "w")]
         ra, rb = pairs[rd % len(pairs)]
         must0 = [(0, 2), (0, 5), (0, L), (3, 5), (3, L), (9, 11)] if tier == "quick" else [(0, 2), (0, 5), (0, L), (3, 5), (9, 11)]
         # ranges on which these rules give the same span with different content (and the same content from different ranges)
         special = {"o": [(5, 6), (5, 7), (5, 9), (0, 2), (3, 5)], "e": [(0, 1), (0, 2), (0, 5), (9, 10), (9, 11)],
-                   "k": [(12, 13), (12, 14), (12, 15), (0, 2), (5, 7)], "m": [(12, 13), (12, 14), (12, 15), (12, 12), (5, 7), (5, 6)]}
+                   "k": [(12, 13), (12, 14), (12, 15), (0, 2), (5, 7)], "m": [(12, 13), (12, 14), (12, 15), (12, 12), (5, 7), (5, 6)],
+                   "ci": [(0, 1), (8, 9), (0, 2), (8, 10), (10, 12), (5, 7)]}
         sub = []
         for r in (ra, rb):
             must = special.get(r, must0)
@@ -1042,9 +1051,9 @@ def fam_opt(tier):
                   alphabet=cps("abc "), maxlen=4, inputs=[cps(s) for s in ["aabbcd", "aab cdd", "a a b c d", "aabbbccdd", "abab", "ababa", "ab a", "c c", "c ", "abc c", "ab c"]]))
     g.append(dict(id="op3", text='v = { o | a | s | "t" }\no = { "{" ~ (m ~ ("," ~ m)*)? ~ "}" }\nm = { s ~ ":" ~ v }\na = { "[" ~ (v ~ ("," ~ v)*)? ~ "]" }\ns = @{ "\'" ~ (!"\'" ~ ANY)* ~ "\'" }',
                   alphabet=cps("{}[],:t'"), maxlen=3, inputs=[cps(x) for x in ["{'t':t}", "[t,[t],{}]", "{'':[t,t]}", "[[[t]]]", "{'a':{'b':t}}", "[t,", "{'t'}", "'t"]]))
-    g.append(dict(id="op6", text='c = @{ "/*" ~ (!"*/" ~ ANY)* ~ "*/" }\nq = @{ (!("é" | ";") ~ ANY)* ~ ";" }\ns = { "[" ~ (c | q)* ~ "]" }',
+    g.append(dict(id="op6", text='c = @{ "/*" ~ (!"*/" ~ ANY)* ~ "*/" }\nq = @{ (!("é" | ";") ~ ANY)* ~ ";" }\ns = { "[" ~ (c | q)* ~ "]" }\nt = @{ (!("*" | "/") ~ ANY)* ~ ("*" | "/") }\nu = { (c | t | "*" | "/")* }',
                   alphabet=[233, 20013, 59, 42, 47], maxlen=3,
-                  inputs=[cps(x) for x in ["/*é*/", "/* 注 */", "/*中*/", "é;", "中é;", "[/*é*/中;]", "[中;/**/]", "/*é", "中中;", "/*中中*/", "[é;]"]]))
+                  inputs=[cps(x) for x in ["/*é*/", "/* 注 */", "/*中*/", "é;", "中é;", "[/*é*/中;]", "[中;/**/]", "/*é", "中中;", "/*中中*/", "[é;]", "é*中/é", "é/**/中*", "*/é"]]))
     if tier != "quick":
         g.append(dict(id="op4", text='x = { PUSH("a" | "b") ~ (y | "-")* ~ POP }\ny = { "(" ~ x ~ ")" | PEEK }', alphabet=cps("ab-()"), maxlen=4,
                       inputs=[cps(x) for x in ["a-a", "a(b-b)a", "aaa", "a(bb)-a", "b(a(b-b)a)b"]]))
